@@ -198,7 +198,7 @@ fn exotic(rng: &mut Rng, f32: bool) -> f64 {
 
 fn check_type<T: Jetty>(tname: &str, ctx: &Ctx, shard: usize, nshards: usize, tindex: u64) -> Acc {
     let mut acc = Acc::new();
-    for ci in 0..ctx.n(2000, 100000) {
+    for ci in 0..ctx.n(2000, 1500000) {
         if ci % nshards as u64 != shard as u64 {
             continue;
         }
